@@ -83,7 +83,7 @@ func init() {
 			checkBatchedStream(c, ps, "C11.R3")
 			checkMemoryStreamPolls(c, p, "C11.R3")
 			c.Rule("C11.R6", "store read functions never turn an error they found into a nil error result (a failed read is not an empty page)")
-			checkErrorsPropagated(c, p, PkgBus, "C11.R6")
+			checkErrorsPropagated(c, p, PkgBus, "C11.R6", errSwallow{PkgBus, "", R.ApplyFn.String(), "", "a failed upcast falls back to the stored event as it is (all-or-nothing application; the fallback is decided under C17.R2)"})
 			checkErrorsPropagated(c, ps, PkgSQLite, "C11.R6")
 			checkErrorsPropagated(c, pd, PkgDurable, "C11.R6")
 			checkStoreDecodeTargets(c, ps, PkgSQLite, "C11.R3")
